@@ -278,10 +278,28 @@ impl Prop for C13 {
                 }
             }
         }
+        // the largest windows a stream can hand to one work() call: about 400 000 and 1 000 000
+        // bits of back-to-back frames delivered at once through a 255-page stream
+        for (nframes, seed) in [(500u32, 7u32), (1250, 8)] {
+            v.push(C13Case {
+                frames: (0..nframes).map(|i| FrameSpec { len: 60 + (i % 70) as u16, pat: (i % 6) as u8, seed: seed * 100_000 + i, sep_flags: 1 + (i % 2) as u8, idle_ones: 0 }).collect(),
+                noise_len: 0,
+                noise_seed: 0,
+                lead_flags: 3,
+                min: 3,
+                max: 200,
+                checksum: true,
+                fix: false,
+                mode: Mode::Clean,
+                in_pages: 255,
+                schedule: vec![],
+                drain_feed: Sz::All,
+            });
+        }
         v
     }
     fn exhaustive_subdomains(&self) -> Vec<String> {
-        vec!["every single-bit flip position of three two-frame transmissions (first frame 9/24/40 payload bytes, shared flag), checksum on, with and without single-bit fixing".into()]
+        vec!["every single-bit flip position of three two-frame transmissions (first frame 9/24/40 payload bytes, shared flag), checksum on, with and without single-bit fixing".into(), "largest single work() windows: 500 and 1250 back-to-back frames (0.4 and 1.0 million bits) through a 255-page stream in one piece".into()]
     }
     fn run(&self, c: &C13Case, ctx: &mut Ctx) {
         let tx = transmission(c);
